@@ -22,11 +22,11 @@ def bpx(pid, text, ref):
     }
 
 checks=[
- bpx("C05","Every interleaving (within the preemption bound) of small closed drivers - merge, split, merge+split, timer flush, shutdown with buffered/queued items, immediate modes - plus two exhaustive sequential layers (every small request shape x every send_batch_max_size; every pair of sequential request sizes x (S,M)) is executed on the real processor; at the end of each execution the multiset of delivered item ids, each item's content digest and its resource/scope/metric identity (incl. schema URLs) are compared with what was submitted.","DESIGN.md 4 C05, appendix B"),
- bpx("C06","Same executions with every success/failure assignment to export calls and a canceller thread able to fire at any point: at the moment Consume returns, its items must have been through completed exports and its result must equal the conjunction of their outcomes; a caller whose context is done is never parked on a disabled operation (state invariant, no wall clock); cancelled requests are delivered at most once; any state with a caller stuck is reported.","DESIGN.md 4 C06"),
- bpx("C09","Size limits on every export of every execution; the size-trigger clause is checked on the shard timeline reconstructed from the scheduler's channel log; the deadline clause under a quiescent virtual clock over a grid of (S,M,T) configurations x request-size sequences x arrival times.","DESIGN.md 4 C09"),
- bpx("C10","All interleavings of concurrent first arrivals of new metadata combinations (Load-miss / Lock / check / LoadOrStore window) for limits 0,1,2, mixed-case keys, empty vs absent vs multi-valued values: no export mixes combinations, exporter-visible client metadata agrees with the items, admitted combinations <= limit, refused requests get a permanent error and nothing exported.","DESIGN.md 4 C10"),
- bpx("C11","In every explored state in-flight exports per combination <= max_concurrency; at the moment Shutdown returns every enqueued item has been exported, no export is in flight and no processor goroutine is alive; every deadlock state and every panic is reported. The data-race clause is decided by a free-running -race pass of the same drivers (dynamic detector, sampled schedules - see level_note).","DESIGN.md 4 C11"),
+ bpx("C05","Every interleaving (within the preemption bound) of small closed drivers - merge, split, merge+split, timer flush, shutdown with buffered/queued items, immediate modes - plus two exhaustive sequential layers (every small request shape x every send_batch_max_size; every pair of sequential request sizes x (S,M)) is executed on the real processor; at the end of each execution the multiset of delivered item ids, each item's content digest and its resource/scope/metric identity (incl. schema URLs) are compared with what was submitted. Executions that end stuck (deadlock, livelock) are final states: items of accepted requests that were never passed on are reported as lost. Idle timer ticks followed by size-triggered flushes, immediate modes for logs and metrics.","DESIGN.md 4 C05, appendix B"),
+ bpx("C06","Same executions with every success/failure assignment to export calls and a canceller thread able to fire at any point: at the moment Consume returns, its items must have been through completed exports and its result must equal the conjunction of their outcomes; a caller whose context is done is never parked on a disabled operation (state invariant, no wall clock); cancelled requests are delivered at most once; any state with a caller stuck is reported; a done-context caller waiting behind a lock whose holder is itself parked on a wait is not prompt (lock holders are tracked); sync.Pool is modelled deterministically (maximal reuse) so recycled per-request objects are explored; merge/split grid of two callers; cancellation while blocked on the full input channel and with metadata keys.","DESIGN.md 4 C06"),
+ bpx("C09","Size limits on every export of every execution; the size-trigger clause is checked on the shard timeline reconstructed from the scheduler's channel log; the deadline clause under a quiescent virtual clock over a grid of (S,M,T) configurations (incl. max > size with remainders in [size,max), max == size, zeros) x request-size sequences x arrival times before and after idle ticks.","DESIGN.md 4 C09"),
+ bpx("C10","All interleavings of concurrent first arrivals of new metadata combinations (Load-miss / Lock / check / LoadOrStore window) for limits 0,1,2, mixed-case keys, empty vs absent vs multi-valued values: no export mixes combinations, exporter-visible client metadata agrees with the items, admitted combinations <= limit, refused requests get a permanent error and nothing exported; a refused combination that comes back stays refused; a racing first arrival followed by a new combination whose batch merges two request contexts (shard-owned export context).","DESIGN.md 4 C10"),
+ bpx("C11","In every explored state in-flight exports per combination <= max_concurrency; at the moment Shutdown returns every enqueued item has been exported, no export is in flight and no processor goroutine is alive; every deadlock state, every livelock (run still going at 10x the step cap), every runaway thread (30 CPU-seconds or 12 GB without a scheduling point, confirmed in a fresh process) and every panic is reported. The data-race clause is decided by a free-running -race pass of the same drivers (dynamic detector, sampled schedules - see level_note).","DESIGN.md 4 C11"),
  bpx("C18","Drivers with 2-3 callers holding distinct (or shared) span-carrying contexts, cancellers for subsets of callers, a virtual-time deadline variant, metadata keys, and a sink that honours its context: a batch fed by >= 2 request contexts must run under a context derived from no caller's, with links both ways; a single-context batch is a child of its request; no caller ever receives another caller's context error.","DESIGN.md 4 C18"),
 ]
 SMC_NOTE=("Trusted base: Go compiler/runtime, pdata accessors, Arrow's ipc.Reader as the independent wire reader, the otlpcanon normal form "
@@ -46,21 +46,21 @@ def smc(pid, text, ref, technique="explicit-state search: exhaustive enumeration
      "technique": technique,
     }
 
-RT="every batch of two complete single-batch products (P1: resource x scope x multisets of <=2 record archetypes; P2: pairs of resources x pairs of scopes x 4 container layouts) on a fresh stream, every history of depth 3 (thorough 4) over a 12-16 letter alphabet in which each letter moves the stream through a different schema-evolution transition, u8-limited dictionaries under three reset thresholds, and batches following a refused one; after every transition the decoded batch must equal the encoded one as a multiset of canonical (resource, scope, record) triples over exactly the data-model fields"
+RT="every batch of two complete single-batch products (P1: resource x scope x multisets of <=2 record archetypes; P2: pairs of resources x pairs of scopes x 4 container layouts) on a fresh stream, every history of depth 3 (thorough 4) over a 12-16 letter alphabet in which each letter moves the stream through a different schema-evolution transition, u8-limited dictionaries under three reset thresholds, pipelined streams (all batches encoded before any is decoded), batches following a refused one, type-mix and prefix-ramp letters, and a long stream of large batches on one default consumer (cumulative Arrow memory several times the 70 MiB limit); after every transition the decoded batch must equal the encoded one as a multiset of canonical (resource, scope, record) triples over exactly the data-model fields"
 checks += [
  smc("C01","Traces: "+RT+".","DESIGN.md 4 C01"),
  smc("C02","Logs: "+RT+" (bodies of every AnyValue type, the same scope under several resources).","DESIGN.md 4 C02"),
  smc("C03","Metrics: "+RT+" (all five types and empty, zero counts, all-zero bucket lists, present-but-zero sum/min/max, exemplars).","DESIGN.md 4 C03"),
- smc("C04","The full product of the public producer options (5 dictionary limits x 4 reset thresholds x zstd x 7 span orders x 4 x 5 attribute orders = 5,600 configurations) over grouping histories (equal key/value, event-name and link-trace-id groups with non-consecutive parents), attribute orders for logs and metrics, and ramp histories that drive every dictionary column through upgrade, overflow and reset; a default consumer must decode every batch to what was encoded. Observer events (upgrade/overflow/reset) are counted in the evidence as a vacuity guard.","DESIGN.md 4 C04"),
+ smc("C04","The full product of the public producer options (5 dictionary limits x 4 reset thresholds x zstd x 7 span orders x 4 x 5 attribute orders = 5,600 configurations) over grouping histories (equal key/value, event-name and link-trace-id groups with non-consecutive parents), attribute orders for logs and metrics, and ramp histories that drive every dictionary column through upgrade, overflow and reset; a default consumer must decode every batch to what was encoded; also the With*InitDictIndex options before/after the limit option, u32/u64 limits widening 16->32 bits in mid-stream, prefix ramps (a later batch contains every earlier value), batches in which every dictionary column of an attribute record crosses its width together, and every attribute ordering over type-mix letters (one key, values of all types under consecutive parents). Observer events (upgrade/overflow/reset) are counted in the evidence as a vacuity guard.","DESIGN.md 4 C04"),
  smc("C07","faultmc: for every short well-formed prefix, every single fault and (on a reduced menu in quick) every pair of faults of a finite payload-level menu (relabel to 6-11 types, drop, duplicate adjacent/at end, swap, reverse, nil/empty record, fresh/stale schema id, no payloads) is applied to the next batch and fed to each of TracesFrom/LogsFrom/MetricsFrom on a consumer replayed to that prefix: no panic, and success only if no main record present in the batch was discarded (item count >= rows of the main payloads).","DESIGN.md 4 C07",
      "exhaustive fault enumeration: every fault (set) of a finite menu at every reachable stream state of a bounded history, on the real consumer"),
  smc("C08","Producer-only runs of every in-domain and out-of-domain archetype (invalid UTF-8, timestamps >= 2^63, nesting depth 17/40, NaN/Inf, 70 kB values, 300 attributes) alone, in pairs, in every ordered pair of single-record batches (zero-first-then-non-zero), in depth-3 histories, in u8 ramp histories incl. a single batch exceeding the limit, and id-width edges (65,535/65,536/65,537 items, resources, scopes, event groups) followed by normal batches: never a panic; oversized batches must be refused with an error.","DESIGN.md 4 C08"),
  smc("C12","Reference model of the framing fed only with BatchArrowRecords fields: batch ids count up; first payload is the main record; each type at most once; related payloads non-empty; schema id -> (type, schema) is a function and retired ids never return; per schema id the payload bytes are read by a separate ipc.Reader and a message-level scan (Schema first, then DictionaryBatch*, exactly one RecordBatch). Over per-signal histories, interleaved signals on one producer, dictionary resets under an unchanged schema, zstd on/off.","DESIGN.md 4 C12"),
- smc("C13","(i) dictmc: explicit-state BFS on the real transform.DictionaryField step function with an environment modelling record discard/rebuild, over 32 (limit, initial width, threshold) configurations and cardinalities straddling 255, 65,535 and 2^32: a record is only ever sent with cardinality <= min(limit, index capacity), and never needs more than 5 rebuilds; (ii) end to end: every dictionary array held by an independent reader after each payload (nested ones included) is checked against the configured limit and its index width over ramp histories and long streams of unbounded-cardinality columns.","DESIGN.md 4 C13"),
- smc("C14","limitmc: for every history of depth <= 2 over an 8-letter alphabet per signal, zstd on/off, the complete ladder of limits 64*k from 0 up to the first limit at which nothing is refused (every in-use value and request is a multiple of 64 - asserted on every published value and LimitError), plus L+1/L+63 cross-checks and the default limit: no panic; a batch on a healthy stream is decoded to the same telemetry as without limit or refused with errors.Is(err, ErrConsumerMemoryLimit); published arrow_memory_inuse <= limit after every call and 0 after Close; decodability is monotone in the limit for equal prefix outcomes.","DESIGN.md 4 C14",
+ smc("C13","(i) dictmc: explicit-state BFS on the real transform.DictionaryField step function with an environment modelling record discard/rebuild, over 32 (limit, initial width, threshold) configurations and cardinalities straddling 255, 65,535 and 2^32: a record is only ever sent with cardinality <= min(limit, index capacity), and never needs more than 5 rebuilds; (ii) end to end: every dictionary array held by an independent reader after each payload (nested ones included) is checked against the configured limit and its index width over ramp histories, long streams of unbounded-cardinality columns, the implicit default limit (180,000 fresh values without any limit option), u32/u64 limits, and the initial-index options in both orders.","DESIGN.md 4 C13"),
+ smc("C14","limitmc: for every history of depth <= 2 over an 8-letter alphabet per signal, zstd on/off, the complete ladder of limits 64*k from 0 up to the first limit at which nothing is refused (every in-use value and request is a multiple of 64 - asserted on every published value and LimitError), plus L+1/L+63 cross-checks at every ladder step, the default limit, and a batch whose IPC message declares a 2^50-byte body under a 1 MiB limit (must be refused with the memory-limit error before any allocation): no panic; a batch on a healthy stream is decoded to the same telemetry as without limit or refused with errors.Is(err, ErrConsumerMemoryLimit); published arrow_memory_inuse <= limit after every call and 0 after Close; decodability is monotone in the limit for equal prefix outcomes.","DESIGN.md 4 C14",
      "exhaustive enumeration of a complete limit ladder (argued complete by 64-byte granularity, re-asserted at run time) x bounded histories on the real consumer"),
- smc("C15","Producer with a CheckedAllocator over option configurations x histories (schema updates, overflow/reset rebuilds, refused batch in the middle, mixed signals); every value is encoded twice in a row: OTLP bytes of the input identical before/after each call, CurrentAlloc()==0 after Close.","DESIGN.md 4 C15"),
- smc("C16","pairmc: all interleavings at API-call granularity (70 per pair, 34,650 per triple in thorough) of the encode/decode calls of 2-3 independent streams with different options on one goroutine: every call's observation (payload digests, decoded content) equals the stream's solo run. The data-race clause is decided by a free-running -race build of the same programs (one goroutine per stream): a dynamic detector, see level_note.","DESIGN.md 4 C16",
+ smc("C15","Producer with a CheckedAllocator over option configurations x histories (schema updates, overflow/reset rebuilds, refused batch in the middle, mixed signals); every value is encoded twice in a row and marked read-only (pdata panics on any write): OTLP bytes of the input identical before/after each call, CurrentAlloc()==0 after Close.","DESIGN.md 4 C15"),
+ smc("C16","pairmc: all interleavings at API-call granularity (70 per pair, 34,650 per triple in thorough) of the encode/decode calls of 2-3 independent streams with different options on one goroutine: every call's observation (payload digests, decoded content) equals the stream's solo run, including consumers constructed with their own options (WithMemoryLimit) before and after default ones. The data-race clause is decided by a free-running -race build of the same programs (one goroutine per stream): a dynamic detector, see level_note.","DESIGN.md 4 C16",
      "exhaustive enumeration of call-granularity interleavings of independent instances + free-running race detector pass"),
  smc("C17","obfmc: every (mode in {encrypt_all, list{secret}, list{secret,missing}}, 4 key seeds incl. all-zero, 3-document life of one processor instance) over 14 attribute archetypes (all 7 value types, nesting, listed/unlisted keys, empty/one-byte/non-ASCII strings) and 3-8 container shapes for the three signals, plus all strings of <= 3 characters over a 5-character alphabet: token-by-token comparison of input and output (structure, order, numbers, ids byte-equal; non-targeted attributes unchanged; substitutes length-preserving, a function of the original and injective per instance).","DESIGN.md 4 C17",
      "bounded-exhaustive enumeration of documents x modes x keys x instance lifetimes on the real processor"),
@@ -89,7 +89,7 @@ m={
   {"name":"obfmc","path":"engines/obfmc","serves_properties":["C17"],"kind_free_text":"bounded-exhaustive document enumeration for the obfuscation processor with a token-level oracle"},
  ],
  "checks":checks,
- "notes":"15 fix: commits in /repo (git log --grep '^fix:'), each recorded in known_findings.json as fixed: with the failing input; see DESIGN.md section 5. No property is declared not applicable.",
+ "notes":"14 fix: commits in /repo (git log --grep '^fix:'), each recorded in known_findings.json as fixed: with the failing input; see DESIGN.md section 5. No property is declared not applicable.",
  "not_applicable":[{"property_id":p,"reason":"check not built yet"} for p in props if p not in claimed],
 }
 json.dump(m,open('/verif/MANIFEST.json','w'),indent=1)
